@@ -8,7 +8,16 @@
    spelled out.
 
    Outside these theorems (other properties): the chunking / retransmission of the reads themselves
-   (C07, C06).  Non-ASCII software names are outside the model (stated hypothesis `ascii_text`). *)
+   (C07, C06).  Non-ASCII software names are outside the model (stated hypothesis `ascii_text`).
+
+   Ranges, stated openly: width, height <= 255 (the 8-bit fields of sv->p2p_dims cannot hold 256); all 18 state
+   bytes of an `info` reply are AppState values ([cs_valid]; what happens otherwise: the C14_bad_state_byte theorems);
+   IOBUF blocks have length <= iobuf_size; version labels contain no newline; C14_core_reservations_exact needs
+   at most 18 states per chip (true of every probed description, discharged in C14_probe_end_to_end; a hand-built
+   SystemInfo with more states is outside it, build_core_constraints only tries cores 0..17 globally).
+   Not covered by a theorem (model definition + correspondence run + oracle only): Machine.__iter__ ([pm_iter]),
+   get_iobuf's UTF-8 decoding, the behaviour of a chip that is busy / flaky for a while (abstracted as
+   `info : chip -> option reply`; retransmission is C06). *)
 From Coq Require Import ZArith String List Bool.
 Require Import Rig.Generated.GenProbe Rig.Model.Base Rig.Model.Probe Rig.Spec.Probe
                Rig.Proofs.Probe Rig.Proofs.ProbeMachine Rig.Proofs.ProbeLayout.
@@ -66,12 +75,12 @@ Theorem C14_build_machine_exact :
     (forall c ci, si_get si c = Some ci ->
        pm_get m c = Ok (ci_cores ci, ci_free_sdram ci, ci_free_sram ci)) /\
     (forall c, si_has si c = false -> pm_get m c = OtherError) /\
-    (forall c l, In l links_values ->
+    (forall c l, In l [0; 1; 2; 3; 4; 5] ->
        (pm_has_link m c l = true <-> exists ci, si_get si c = Some ci /\ In l (ci_links ci))) /\
     (forall c, In c (pm_dead_chips m) <-> (in_bounds (si_width si) (si_height si) c /\ si_has si c = false)) /\
     (forall c l, In (c, l) (pm_dead_links m) <->
-       exists ci, si_get si c = Some ci /\ In l links_values /\ ~ In l (ci_links ci)).
-Proof. exact build_machine_exact. Qed.
+       exists ci, si_get si c = Some ci /\ In l [0; 1; 2; 3; 4; 5] /\ ~ In l (ci_links ci)).
+Proof. exact build_machine_exact_lit. Qed.
 
 (* build_core_constraints: on every described chip the reservations that bind there (global ones and the
    chip's own) are non-empty ranges, no core lies in two of them, and their union is exactly the set of
@@ -245,9 +254,9 @@ Proof. exact iobuf_bytes_chain_L. Qed.
    successive machine states returns, call by call, what a fresh controller would return. *)
 Theorem C14_controller_history_independent :
   forall L sv ci calls st,
-    decode_sver sv = Ok ci -> (st = None \/ exists n, st = Some n) ->
+    decode_sver sv = Ok ci ->
     ctl_run L st sv calls = map (fun c => system_info_L L (fst c) (snd c)) calls.
-Proof. exact ctl_history_independent. Qed.
+Proof. exact ctl_history_independent'. Qed.
 
 Theorem C14_controller_status_history_free :
   forall L st st' sv rd p,
@@ -272,7 +281,50 @@ Theorem C14_short_info_payload_is_an_error :
   forall r, (length (r_data r) < 24)%nat -> decode_info r = OtherError.
 Proof. exact decode_info_short. Qed.
 
+(* Robustness observation (not a violation: a machine's 18 state bytes are always states): get_chip_info converts
+   all 18 state bytes before keeping num_cores of them, so a byte that is no AppState at ANY of the 18 positions --
+   also in the slot of a core the chip does not have -- raises ValueError, which is no SCPError and therefore aborts
+   the whole get_system_info instead of dropping that chip. *)
+Theorem C14_bad_state_byte_is_an_error :
+  forall cs s,
+    length (cs_states cs) = 18%nat -> length (cs_ip cs) = 4%nat ->
+    In s (cs_states cs) -> ~ In s app_states ->
+    decode_info (encode_info cs) = OtherError.
+Proof. exact decode_info_bad_state. Qed.
+
+Theorem C14_bad_state_byte_aborts_system_info :
+  forall info tbl c e r,
+    In (c, e) tbl -> e <> NO_ROUTE -> info c = Some r -> decode_info r = OtherError ->
+    system_info_of_table info tbl = OtherError.
+Proof. exact system_info_bad_state. Qed.
+
 (* ---- views --------------------------------------------------------------------------------------- *)
+Theorem C14_num_working_cores_any_layout :
+  forall L rd v, field_holds rd (l_sv_base L) (l_num_cpus L) v -> num_working_cores_L L rd = Ok v.
+Proof. exact num_working_cores_any_layout. Qed.
+
+Theorem C14_si_cores_exact :
+  forall si c p s, NoDup (map fst (si_chips si)) ->
+    (In (c, p, s) (si_cores si) <->
+     exists ci, si_get si c = Some ci /\ 0 <= p /\ nth_error (ci_states ci) (Z.to_nat p) = Some s).
+Proof. exact si_cores_exact. Qed.
+
+Theorem C14_si_ethernet_exact :
+  forall si c ip, NoDup (map fst (si_chips si)) ->
+    (In (c, ip) (si_ethernet si) <-> exists ci, si_get si c = Some ci /\ ci_eth_up ci = true /\ ip = ci_ip ci).
+Proof. exact si_ethernet_exact. Qed.
+
+(* (x, y, p, state) in system_info, including the IndexError when a 5-bit core count exceeds the 18 states held *)
+Theorem C14_si_has_core_state_exact :
+  forall si c p s,
+    (si_get si c = None -> si_has_core_state si c p s = Ok false) /\
+    (forall ci, si_get si c = Some ci -> ~ (0 <= p < ci_cores ci) -> si_has_core_state si c p s = Ok false) /\
+    (forall ci s', si_get si c = Some ci -> 0 <= p < ci_cores ci -> nth_error (ci_states ci) (Z.to_nat p) = Some s' ->
+       si_has_core_state si c p s = Ok (s' =? s)) /\
+    (forall ci, si_get si c = Some ci -> 0 <= p < ci_cores ci -> Z.of_nat (length (ci_states ci)) <= p ->
+       si_has_core_state si c p s = OtherError).
+Proof. exact si_has_core_state_exact. Qed.
+
 Theorem C14_working_links_exact :
   forall cs, cs_valid cs ->
     working_links (encode_info cs) = Ok (filter (fun l => Z.testbit (cs_linkmask cs) l) [0; 1; 2; 3; 4; 5]).
@@ -298,6 +350,18 @@ Example C14_moved_layout_satisfiable : status_block_valid_at ex_offsets (l_vcpu_
 Proof. exact ex_block_L_valid. Qed.
 
 (* Non-vacuity. *)
+Example C14_full_width_core_count :
+  cs_valid ex_cs31 /\ option_map (fun ci => (ci_cores ci, length (ci_states ci)))
+                                  (okopt (decode_info (encode_info ex_cs31))) = Some (31, 18%nat).
+Proof. exact ex_cs31_valid. Qed.
+
+Example C14_junk_byte_beyond_num_cores_raises : decode_info (encode_info ex_cs_junk) = OtherError.
+Proof. exact ex_cs_junk_raises. Qed.
+
+Example C14_core_17_busy_on_the_18_core_chip_only :
+  build_core_constraints ex_si2 = [((0, 1), None); ((17, 18), Some (0, 0))].
+Proof. exact ex_si2_constraints. Qed.
+
 Example C14_sver_semver_satisfiable :
   sver_header_valid 3 4 17 0 256 /\ ascii_text (chars "SC&MP/SpiNNaker") /\ digits (chars "2") /\ digits (chars "10") /\
   digits (chars "0") /\ labels_ok (chars "-dev") /\
